@@ -155,6 +155,7 @@ def strategy_(draw, tier):
     spec["requests"] = draw(strat.requests(size, unit_bytes(spec), count=6, points=request_points(spec), whole_limit=4 << 20))
     spec["via_minimal"] = draw(strat.minimal_handle())
     spec["fault"] = draw(strat.fault())
+    spec["flavours"] = draw(st.booleans())
     spec["via_gzip"] = draw(st.integers(0, 3 if spec["kind"] == "flat" else 11)) == 0
     if spec.get("descriptor") and draw(st.integers(0, 1)) == 0:
         # the embedded descriptor fills its area to the last byte (no NUL behind it); the header attributes may come in any order
